@@ -66,6 +66,23 @@ def handle (op : String) (args : List String) : String :=
         | _ => "bad-op"
       | _ => "bad-op"
     | _ => "bad-op"
+  | "c11.covsync" =>
+    -- `c11.covsync N <names> F <free names> M <n*n hex floats, row-major in the order of names>`
+    match splitTok "M" args with
+    | [hdr, mat] =>
+      match splitTok "F" hdr with
+      | ["N" :: names, free] =>
+        match floats? mat with
+        | some xs =>
+          let n := names.length
+          if xs.length != n * n then "bad-op" else
+          let idx (p : String) : Nat := (names.findIdx? (· == p)).getD n
+          let mcov (p q : String) : Float := xs.getD (idx p * n + idx q) (0.0 / 0.0)
+          let r := covsync free mcov
+          if r.isEmpty then "-" else joinSp (r.map fun e => e.1.1 ++ "," ++ e.1.2 ++ "=" ++ hexOfFloat e.2)
+        | none => "bad-op"
+      | _ => "bad-op"
+    | _ => "bad-op"
   | _ => "bad-op"
 
 end Gep.Driver.C11
